@@ -18,12 +18,13 @@ import (
 // C09 — MODP groups 2/14: RFC primes, agreement, fixed-length output, sound exponents.
 
 type c09Case struct {
-	K     string `json:"k"` // prime | exp | rand
+	K     string `json:"k"`     // prime | exp | rand
 	Group int    `json:"group"` // 0: group 2, 1: group 14
 	X     string `json:"x_hex,omitempty"`
 	Y     string `json:"y_hex,omitempty"`
 	Fn    string `json:"fn,omitempty"`
 	Env   []int  `json:"env,omitempty"`
+	Stuck int    `json:"stuck,omitempty"` // > 0: the source is stuck — every read gets answer Stuck-1 (zero / 0xFF / a constant) except the deviations (error, healthy read)
 }
 
 func pow2(k uint) *big.Int { return new(big.Int).Lsh(big.NewInt(1), k) }
@@ -80,8 +81,13 @@ func init() {
 				x, _ := new(big.Int).SetString(cs.X, 16)
 				y, _ := new(big.Int).SetString(cs.Y, 16)
 				c09Exp(c, cs.Group, x, y)
+			case "dhm":
+				y, _ := new(big.Int).SetString(cs.Y, 16)
+				c09Materials(c, cs.Group, y, cs.X == "padded")
 			case "rand":
+				c09Stuck = cs.Stuck
 				c09Rand(c, cs.Fn, engine.NewReplayRun(cs.Env))
+				c09Stuck = 0
 			}
 		},
 	})
@@ -97,6 +103,19 @@ func runC09(c *engine.Ctx) {
 			for _, y := range c09Peers(g, c.Thorough()) {
 				if c.Mine() {
 					c09Exp(c, gi, x, y)
+				}
+			}
+		}
+	}
+	// the high-level entry point with every peer value of the alphabet (both as minimal and as modulus-length
+	// octet strings): the exponent comes from the scripted source, so the expected values are known; afterwards
+	// the group must still compute modulo the RFC prime (a refused or degenerate exchange must leave no trace)
+	for gi := 0; gi < 2; gi++ {
+		g := ref.GroupByID(dhIDs[gi])
+		for _, y := range c09Peers(g, true) {
+			for _, padded := range []bool{false, true} {
+				if c.Mine() {
+					c09Materials(c, gi, y, padded)
 				}
 			}
 		}
@@ -134,8 +153,23 @@ func runC09(c *engine.Ctx) {
 		st := engine.Explore(b, 0, func(r *engine.Run) { c09Rand(c, fn, r) }, func(r *engine.Run) {})
 		c.Count("env_executions/"+fn, st.Executions)
 		c.Count("env_max_reads/"+fn, int64(st.MaxDepth))
+		// a stuck source: every read answers the same degenerate content; deviations are a failure or a healthy
+		// read at any one (two) read indices. Whatever is returned without error must still be a sound exponent.
+		for _, stuck := range []int{engine.AnsZero, engine.AnsFF, engine.AnsConst + 1} {
+			c09Stuck = stuck + 1
+			sb := 1
+			if c.Thorough() && fn == "GenerateRandomNumber" {
+				sb = 2
+			}
+			st := engine.Explore(sb, 0, func(r *engine.Run) { c09Rand(c, fn, r) }, func(r *engine.Run) {})
+			c09Stuck = 0
+			c.Count("stuck_source_executions/"+fn, st.Executions)
+		}
 	}
 }
+
+// c09Stuck: see c09Case.Stuck.
+var c09Stuck int
 
 func c09Prime(c *engine.Ctx, gi int) {
 	c.Evals++
@@ -231,10 +265,14 @@ func c09Rand(c *engine.Ctx, fn string, r *engine.Run) {
 	c.Evals++
 	fn0 := fn
 	menu := []int{engine.AnsA, engine.AnsZero, engine.AnsFF, engine.AnsShort, engine.AnsErr}
+	stuck := c09Stuck
+	if stuck > 0 {
+		menu = []int{stuck - 1, engine.AnsErr, engine.AnsA}
+	}
 	seam := engine.NewSeam(r, menu)
 	restore := engine.Install(seam)
 	defer restore()
-	mk := func() c09Case { return c09Case{K: "rand", Fn: fn0, Env: r.Choices()} }
+	mk := func() c09Case { return c09Case{K: "rand", Fn: fn0, Env: r.Choices(), Stuck: stuck} }
 	var n1, n2 *big.Int
 	var err1, err2 error
 	var u1 uint8
@@ -255,7 +293,10 @@ func c09Rand(c *engine.Ctx, fn string, r *engine.Run) {
 		pi = engine.Catch(func() { u1, err1 = security.GenerateRandomUint8(); reads1 = seam.Consumed() })
 	case "CalculateDiffieHellmanMaterials":
 		k := infoSA(c07Case{PRF: 1, Integ: 1, Encr: 0, DH: 0})
-		pi = engine.Catch(func() { pub, sh, err1 = security.CalculateDiffieHellmanMaterials(k, []byte{2}); reads1 = seam.Consumed() })
+		pi = engine.Catch(func() {
+			pub, sh, err1 = security.CalculateDiffieHellmanMaterials(k, []byte{2})
+			reads1 = seam.Consumed()
+		})
 	case "CalculateDiffieHellmanMaterials×2":
 		// two calls on the same key object with the same peer value (a retransmitted request): each call draws
 		// a fresh exponent from the source
@@ -282,7 +323,7 @@ func c09Rand(c *engine.Ctx, fn string, r *engine.Run) {
 				restore()
 				c.Violate("source-not-consumed/second-call", "the second CalculateDiffieHellmanMaterials on the same key object read nothing from the random source", mk())
 				return
-			case err2 == nil && bytes.Equal(pub, pub2) && r.Deviations() == 0:
+			case err2 == nil && bytes.Equal(pub, pub2) && r.Deviations() == 0 && stuck == 0:
 				restore()
 				c.Violate("exponent-repeats/same-key-object", "two calls on the same key object return the same public value", mk())
 				return
@@ -302,7 +343,10 @@ func c09Rand(c *engine.Ctx, fn string, r *engine.Run) {
 		fn = "CalculateDiffieHellmanMaterials"
 	case "NewIKESAKey":
 		prop, _ := infoSA(c07Case{PRF: 1, Integ: 1, Encr: 0, DH: 0}).ToProposal()
-		pi = engine.Catch(func() { sa, pub, err1 = security.NewIKESAKey(prop, []byte{2}, univ.Pat(32, 1), 1, 2); reads1 = seam.Consumed() })
+		pi = engine.Catch(func() {
+			sa, pub, err1 = security.NewIKESAKey(prop, []byte{2}, univ.Pat(32, 1), 1, 2)
+			reads1 = seam.Consumed()
+		})
 	}
 	restore()
 	envs := strings.Join(seam.Answers(), ",")
@@ -354,7 +398,7 @@ func c09Rand(c *engine.Ctx, fn string, r *engine.Run) {
 			}
 		}
 		if n1 != nil && n2 != nil {
-			if n1.Cmp(n2) == 0 {
+			if n1.Cmp(n2) == 0 && stuck == 0 {
 				c.Violate("exponent-repeats", fmt.Sprintf("two successive calls under [%s] return the same number", envs), mk())
 				return
 			}
@@ -409,6 +453,58 @@ func c09Rand(c *engine.Ctx, fn string, r *engine.Run) {
 		}
 	}
 	c.Sample("rand/"+fn, map[string]interface{}{"fn": fn, "answers": seam.Answers(), "octets_consumed": seam.Consumed()})
+}
+
+// c09Materials: CalculateDiffieHellmanMaterials with peer value y under a healthy scripted source.
+func c09Materials(c *engine.Ctx, gi int, y *big.Int, padded bool) {
+	c.Evals++
+	cs := c09Case{K: "dhm", Group: gi, Y: y.Text(16)}
+	if padded {
+		cs.X = "padded"
+	}
+	g := ref.GroupByID(dhIDs[gi])
+	d := dh.StrToType(dhNames[gi])
+	peer := y.Bytes()
+	if padded && len(peer) < g.Len {
+		peer = append(make([]byte, g.Len-len(peer)), peer...)
+	}
+	const stream = 4242
+	x := c09FirstNumber(stream)
+	k := infoSA(c07Case{PRF: 1, Integ: 1, Encr: 0, DH: gi})
+	seam := engine.NewSeam(nil, nil)
+	seam.Stream = stream
+	restore := engine.Install(seam)
+	var pub, sh []byte
+	var err error
+	pi := engine.Catch(func() { pub, sh, err = security.CalculateDiffieHellmanMaterials(k, peer) })
+	restore()
+	if pi != nil {
+		c.Violate(pi.Sig(), fmt.Sprintf("CalculateDiffieHellmanMaterials(group %d, peer %s…) panics: %s", dhIDs[gi], trunc([]byte(cs.Y), 16), pi.Value), cs)
+		return
+	}
+	if err == nil && x != nil {
+		if !bytes.Equal(pub, g.Public(x)) || !bytes.Equal(sh, g.Shared(x, y)) {
+			c.Violate(fmt.Sprintf("dh-materials/group%d", dhIDs[gi]), fmt.Sprintf("peer %s…: public value or shared secret differ from 2^x mod p / y^x mod p for the exponent the source delivered", trunc([]byte(cs.Y), 16)), cs)
+			return
+		}
+	} else if err != nil {
+		c.Count("dh_materials_refused", 1)
+	}
+	// the group object afterwards
+	px, py := new(big.Int).SetBytes(univ.Pat(40, 5)), new(big.Int).SetBytes(univ.Pat(g.Len, 6))
+	var p2, s2 []byte
+	if pi := engine.Catch(func() {
+		p2 = d.GetPublicValue(new(big.Int).Set(px))
+		s2 = d.GetSharedKey(new(big.Int).Set(px), new(big.Int).Set(py))
+	}); pi != nil {
+		c.Violate(pi.Sig(), "group object unusable after the exchange: "+pi.Value, cs)
+		return
+	}
+	if !bytes.Equal(p2, g.Public(px)) || !bytes.Equal(s2, g.Shared(px, py)) {
+		c.Violate(fmt.Sprintf("group-changed-by-exchange/group%d", dhIDs[gi]), fmt.Sprintf("after an exchange with peer value %s… (err=%v) the group no longer computes modulo the RFC prime", trunc([]byte(cs.Y), 16), err), cs)
+		return
+	}
+	c.DistinctS("dhm" + fmt.Sprint(gi, padded) + cs.Y)
 }
 
 var c09FirstCache = map[uint64]*big.Int{}
